@@ -144,6 +144,10 @@ def worker_main(argv):
     if (a.backend == "c") != is_c:
         print(json.dumps({"fatal": "backend %s requested but quoter is %s" % (a.backend, _quoting._Quoter.__module__)}), file=proto_out)
         return 2
+    # modules the standard library imports lazily on first use (typing's protocol isinstance check pulls in
+    # inspect): load them here so that no simulated thread ever runs an import
+    import inspect  # noqa
+
     gc.disable()
     gc.collect()
     gc.freeze()
